@@ -5,7 +5,8 @@ from m5check import run_property
 
 SEC, MS = m5.SEC, m5.MS
 BEH = ["reply", "reply", "reply", "delay:%d" % (100 * MS), "delay:%d" % (900 * MS), "delay:%d" % (1 * SEC), "delay:%d" % (2 * SEC),
-       "delay:%d" % (3 * SEC - 1), "delay:%d" % (3 * SEC), "delay:%d" % (3 * SEC + 1), "delay:%d" % (6 * SEC)]
+       "delay:%d" % (3 * SEC - 1), "delay:%d" % (3 * SEC), "delay:%d" % (3 * SEC + 1), "delay:%d" % (6 * SEC),
+       "stream:%d" % (500 * MS), "stream:%d" % (2 * SEC), "stream:%d" % (3 * SEC - 1), "stream:%d" % (5 * SEC)]
 PROFILES = [
     {"requests": 2.5, "deploys": 1.5, "pause": 0, "rollout": 0.0, "remove": 0, "flap": 0, "flap_targets": False, "behaviours": BEH,
      "fail_deploys": 0.15, "yields": 0.9, "initial_all": True, "cooldown": 9 * SEC, "overlap": 0.1, "actions": (18, 55),
@@ -19,6 +20,8 @@ PROFILES = [
 
 
 def run(tier, seed):
+    import m5check
+    m5check.TRUNC_FN = "c02_trunc_bad"
     return run_property(
         "C02", tier, seed, "C02.v", "C02corr", "c02_check", PROFILES, n_quick=36, n_thorough=1200,
         codes={"1": "request answered 404", "2": "request answered 502", "3": "request answered 503",
@@ -32,4 +35,5 @@ def run(tier, seed):
                      "requests of a service on which two commands overlapped (a command issued before the previous one on that service "
                      "returned) are not judged from then on: the property quantifies over successive redeploys (observation D14)"],
         forced=[forced.d2_refused_during_redeploy(), forced.deploy_waits_for_rotation(), forced.drain_grants_the_drain_timeout(),
-                forced.stale_probe_result_after_the_deploy()])
+                forced.stale_probe_result_after_the_deploy(), forced.record_of_an_ended_request_is_not_the_new_one(),
+                forced.streamed_response_runs_on_while_draining()])
